@@ -560,6 +560,20 @@ class Interp:
             return ("zst", t["adt"])
         if t["k"] in ("fndef", "closure"):
             return ("fn", {"path": t["fn"], "args": [], "local": True})
+        # a const generic parameter (`const ENCRYPT: bool`, `const N: usize`) bound by the call
+        b = self.tyenv[-1].get(str(op.get("text", "")).strip())
+        if isinstance(b, tuple) and b and b[0] == "constval":
+            c = b[1]
+            if t["k"] == "bool" and c in ("true", "false"):
+                return vbool(c == "true")
+            digits = c.split("_")[0]
+            if digits.isdigit() and t["k"] in ("uint", "int"):
+                v = int(digits)
+                if t["name"] in ("usize", "isize"):
+                    return vsize(v)
+                if t["name"] == "u8":
+                    return vbytes(T.itobytes("ne", T.iconst(8, v)))
+                return vint(T.iconst(int(t["name"][1:]), v))
         return ("unknown", "const %s" % op.get("text"))
 
     def eval_promoted(self, st, fr, idx):
@@ -1160,6 +1174,12 @@ class Interp:
                             env[nm] = outer[t["name"]]
                         else:
                             env[nm] = (caller_cr.name, a["ty"])
+                    elif "const" in a:
+                        c = str(a["const"]).strip()
+                        if c in outer and isinstance(outer[c], tuple) and outer[c][0] == "constval":
+                            env[nm] = outer[c]        # forwarded const parameter
+                        else:
+                            env[nm] = ("constval", c)
         self.tyenv.append(env)
         try:
             return self._inline(st, cr, body, args, depth)
